@@ -769,14 +769,9 @@ theorem failover_route_admission (H : Hash) (s : Store) (now : Int) (k : QKey) (
     · simp [Store.serveViaFailover, failoverWrite, Upstream.mark]
     · unfold Store.serveViaFailover failoverWrite
       have : (Upstream.localFail c').mark ≠ .probeLimit := by
-        unfold Upstream.mark; split
-        · exact hne
-        · decide
+        unfold Upstream.mark
+        by_cases h : c'.isRequestLocal = true <;> simp [h, hne]
       simp [this]
-
--- non-vacuity: a genuine primary SERVFAIL plus a failing fallback IS filed (under the client's class CH)
-example : (Store.serveViaFailover H1 ⟨false, cfg0, []⟩ 0 ⟨wwwExampleCom, 16, 3, false, none⟩ .servfail .refused).tab.length = 1 := by decide
-example : (Store.serveViaFailover H1 ⟨false, cfg0, []⟩ 0 ⟨wwwExampleCom, 16, 3, false, none⟩ (.localFail .attemptLimit) .refused).tab.length = 0 := by decide
 
 /-! ## the kill switch -/
 
@@ -1061,6 +1056,10 @@ example : lookupWire H1 (hist.foldl (applyOp H1 cfg0) []) (16 * second)
 example : retryKey H1 (recordZone H1 cfg0 [] 0 ⟨exampleCom, 1⟩ 2 0).1 (5 * second) ⟨exampleCom, 6, 1, false, none⟩
     = retryKey H1 (recordZone H1 cfg0 [] 0 ⟨exampleCom, 1⟩ 2 0).1 (5 * second) ⟨exampleCom, 48, 1, true, none⟩ := by decide
 example : (retryKey H1 (recordZone H1 cfg0 [] 0 ⟨exampleCom, 1⟩ 2 0).1 (5 * second) ⟨exampleCom, 6, 1, false, none⟩).isSome = true := by decide
+
+-- non-vacuity: a genuine primary SERVFAIL plus a failing fallback IS filed (under the client's class CH)
+example : (Store.serveViaFailover H1 ⟨false, cfg0, []⟩ 0 ⟨wwwExampleCom, 16, 3, false, none⟩ .servfail .refused).tab.length = 1 := by decide
+example : (Store.serveViaFailover H1 ⟨false, cfg0, []⟩ 0 ⟨wwwExampleCom, 16, 3, false, none⟩ (.localFail .attemptLimit) .refused).tab.length = 0 := by decide
 
 end Examples
 
